@@ -48,6 +48,7 @@ type vfCCPeer struct {
 	srv    *grpc.Server
 	killed bool
 	name   string
+	mute   *vfMuteConn
 	// closedLocally: the proxy closed the session of this peer itself (closeLocal)
 	closedLocally bool
 	// incoming yamux streams, accepted once per session and handed to the current gRPC server incarnation
@@ -149,6 +150,44 @@ func (l *vfPeerListener) Accept() (net.Conn, error) {
 }
 func (l *vfPeerListener) Close() error   { l.once.Do(func() { close(l.closed) }); return nil }
 func (l *vfPeerListener) Addr() net.Addr { return l.p.sess.Addr() }
+
+// vfMuteConn is the proxy's end of a connection that can turn into a black hole: once muted, what the proxy writes
+// vanishes and nothing arrives any more - no data, no EOF, no reset (a partition, a NAT entry that timed out). Only the
+// proxy's own Close ends it.
+type vfMuteConn struct {
+	net.Conn
+	mu     sync.Mutex
+	muted  bool
+	closed chan struct{}
+	once   sync.Once
+}
+
+func (c *vfMuteConn) isMuted() bool { c.mu.Lock(); defer c.mu.Unlock(); return c.muted }
+func (c *vfMuteConn) Read(p []byte) (int, error) {
+	if !c.isMuted() {
+		n, err := c.Conn.Read(p)
+		if !c.isMuted() {
+			return n, err
+		}
+	}
+	<-c.closed
+	return 0, net.ErrClosed
+}
+func (c *vfMuteConn) Write(p []byte) (int, error) {
+	if c.isMuted() {
+		select {
+		case <-c.closed:
+			return 0, net.ErrClosed
+		default:
+			return len(p), nil
+		}
+	}
+	return c.Conn.Write(p)
+}
+func (c *vfMuteConn) Close() error {
+	c.once.Do(func() { close(c.closed) })
+	return c.Conn.Close()
+}
 
 type vfCCScenario struct {
 	Size  int `json:"size"`
@@ -255,7 +294,13 @@ func vfNewCCExec(sc vfCCScenario) *vfCCExec {
 	}
 	builder := func(add AddNewMux, ctx context.Context) (MuxProvider, error) {
 		e.cp = &vfConnProvider{lifetime: ctx, offers: make(chan vfOffer)}
-		sessionFn := func(conn net.Conn) (*yamux.Session, error) { return yamux.Client(conn, vfYamuxConfig()) }
+		// (this family's yamux settings are the harness's: keep-alive every 5 minutes, so that the session's own health
+		// check - every minute - records a failed ping well before yamux gives the connection up)
+		sessionFn := func(conn net.Conn) (*yamux.Session, error) {
+			cfg := vfYamuxConfig()
+			cfg.KeepAliveInterval = 5 * time.Minute
+			return yamux.Client(conn, cfg)
+		}
 		return NewMuxProvider(ctx, "verif", e.cp, sessionFn, int64(sc.Size), add, []string{"verif", "mux", "cc"}, logger), nil
 	}
 	mm, err := NewCustomMultiMuxManager(lifetime, "verif", builder, nil, []OnConnectionListUpdate{e.OnConnectionListUpdate}, logger)
@@ -281,7 +326,8 @@ func (e *vfCCExec) add() {
 	before := e.liveIDs()
 	e.peers = append(e.peers, p)
 	e.logf("session to %s offered", p.name)
-	e.offers() <- vfOffer{conn: a}
+	p.mute = &vfMuteConn{Conn: a, closed: make(chan struct{})}
+	e.offers() <- vfOffer{conn: p.mute}
 	synctest.Wait()
 	for _, id := range e.liveIDs() {
 		found := false
@@ -445,6 +491,7 @@ func (e *vfCCExec) enabled() []string {
 				if !e.isStalled(id) {
 					out = append(out, "stall:"+id)
 				}
+				out = append(out, fmt.Sprintf("blackhole:%d", pi))
 			}
 		}
 	}
@@ -484,6 +531,27 @@ func (e *vfCCExec) apply(a string) error {
 				e.release(id)
 			}
 		}
+	case "blackhole":
+		// the connection of this session goes silent (no data, no EOF, no reset); 7 minutes later the session must be gone:
+		// the failed pings are recorded by the session's health check, the keep-alive gives the connection up
+		var i int
+		fmt.Sscan(f[1], &i)
+		p := e.peers[i]
+		if p.killed || p.mute == nil {
+			return fmt.Errorf("action %s not enabled", a)
+		}
+		e.faults++
+		e.logf("the connection to %s goes silent (black hole)", p.name)
+		p.mute.mu.Lock()
+		p.mute.muted = true
+		p.mute.mu.Unlock()
+		p.killed = true
+		for id, pi := range e.idToPeer {
+			if pi == i {
+				e.release(id)
+			}
+		}
+		time.Sleep(7 * time.Minute)
 	case "stall":
 		// the peer of this session stops accepting streams while the session stays up, and its gRPC server restarts:
 		// the client's transport on the session ends, gRPC dials the endpoint again and that dial stays pending
@@ -572,6 +640,7 @@ func vfRunCC(t *testing.T, job *vfCCJob) (out vfPoolOut) {
 			}
 		}()
 		synctest.Test(t, func(t *testing.T) {
+			vrt.ResetLocks()
 			e := vfNewCCExec(job.Sc)
 			synctest.Wait()
 			e.consistency("initially")
@@ -587,8 +656,18 @@ func vfRunCC(t *testing.T, job *vfCCJob) (out vfPoolOut) {
 					return true
 				case <-tm.C:
 					e.violate("stuck/session-list-update-blocked", fmt.Sprintf("%s has not completed after 3 hours of virtual time; goroutines waiting for a lock: %v", what, vrt.BlockedLockers()))
+					// the verdict is recorded at once: what follows only lets the bubble end
+					out.Viol, out.Events = e.viol, e.events
 					e.release("")
-					<-fin
+					again := time.NewTimer(time.Minute)
+					defer again.Stop()
+					select {
+					case <-fin:
+					case <-again.C:
+						// still stuck (a lock nobody will release): the parked goroutines leave, running their deferred calls
+						vrt.AbandonBlockedLockers()
+						<-fin
+					}
 					return false
 				}
 			}
@@ -628,6 +707,8 @@ func vfRunCC(t *testing.T, job *vfCCJob) (out vfPoolOut) {
 				_ = p.conn.Close()
 			}
 			time.Sleep(2 * time.Minute)
+			synctest.Wait()
+			vrt.AbandonBlockedLockers()
 			synctest.Wait()
 			vrt.SetFakeNet(nil)
 			out.Viol = e.viol
@@ -710,6 +791,9 @@ func TestVerifC11(t *testing.T) {
 			for _, v := range out.Viol {
 				res.Violate(v.Signature, fmt.Sprintf("pool size %d, actions %v: %s\ntrace:\n  %s", sc.Size, path, v.Detail, strings.Join(out.Events, "\n  ")), vfCCJob{Sc: sc, Path: path})
 			}
+			if len(out.Viol) > 0 && out.Err != "" {
+				return nil // the verdicts of this execution stand; how its bubble ended does not matter any more
+			}
 			if out.Err != "" && !strings.Contains(out.Err, "blocked goroutines remain") {
 				harnessErrs = append(harnessErrs, fmt.Sprintf("%s on %v", out.Err, path))
 				return nil
@@ -765,7 +849,7 @@ func TestVerifC11(t *testing.T) {
 	res.Set("distinct_outcomes", int64(len(outcomes)))
 	res.Set("exhaustive", exhaustive && len(harnessErrs) == 0)
 	res.Set("harness_errors", harnessErrs)
-	res.Set("alphabet", "add (new yamux session with a gRPC echo server behind it), closeLocal(id), killPeer(i), rpc (DescribeCluster, up to 3 tries of 2 s each 2 s apart), idle (31 minutes without calls, once), and up to max_faults of: degrade(id) (the session's health state reads Error while it stays up), failOpen(id) (its next Open fails once), bounce(i) (the peer's gRPC server restarts on the same session, so the client redials), stall(id) (the peer stops accepting streams while the session stays up and its transport ends: the redial stays pending until the session ends); after every path a closing rpc and, if nothing is live, a new session followed by an rpc")
+	res.Set("alphabet", "add (new yamux session with a gRPC echo server behind it), closeLocal(id), killPeer(i), rpc (DescribeCluster, up to 3 tries of 2 s each 2 s apart), idle (31 minutes without calls, once), and up to max_faults of: degrade(id) (the session's health state reads Error while it stays up), failOpen(id) (its next Open fails once), bounce(i) (the peer's gRPC server restarts on the same session, so the client redials), stall(id) (the peer stops accepting streams while the session stays up and its transport ends: the redial stays pending until the session ends), blackhole(i) (the connection goes silent - no data, no EOF - and 7 minutes pass: the session must be gone); after every path a closing rpc and, if nothing is live, a new session followed by an rpc")
 	res.Set("explanation", "every transition runs the real multiMuxManager (listener = real MultiClientConn.OnConnectionListUpdate; second family: built by the real NewGRPCMuxManager with the real establisher over an in-memory network), real yamux and a real grpc.ClientConn/Server pair in a synctest bubble; after every action the dialable endpoint set is compared with the registered sessions and CanMakeCalls; no separate model")
 	res.Sample(map[string]any{"pool_size": sc.Size, "states": states})
 	res.Assume("the client connection is built as createClient builds it (name client-conn-<connection name>, production dial options: round_robin); every step runs under a 3-hour virtual-time watchdog (rewritten locks park instead of blocking the clock)")
